@@ -48,7 +48,7 @@ ASSUMPTIONS = [
 
 FNAMES = {"npy": ["stats.npy"], "npz": ["stats.npz"], "raw": ["stats.bin", "stats", "stats.dat", "cmvn.NPY", "Cmvn.Npz", "stats.npy.bak"]}
 FOREIGN = ["foo", "bar", "arr_0", "arr_1", "arr_3"]
-USER_KEYS = [None, None, None, "stats", "k", "arr_7"]
+USER_KEYS = [None, None, None, "stats", "k", "arr_7", "1034", "0", "007"]  # (all-digit names are names, not positions)
 
 
 def foreign_value(key):
